@@ -417,15 +417,18 @@ class ThreadedSim(Sim):
 
     def _end(self, h):
         flushing = h.work.has_buffer()
-        if flushing and self.flush_reader is None:
-            # a client that keeps reading: one unit per select() of the blocking flush
-            self.flush_reader = lambda p: p.read(1 << 16)
-            try:
+        try:
+            if flushing and self.flush_reader is None:
+                # a client that keeps reading: one unit per select() of the blocking flush
+                self.flush_reader = lambda p: p.read(1 << 16)
+                try:
+                    h.shutdown()
+                finally:
+                    self.flush_reader = None
+            else:
                 h.shutdown()
-            finally:
-                self.flush_reader = None
-        else:
-            h.shutdown()
+        except Exception as e:     # run() has shutdown() in its finally block: the exception ends that connection's thread only
+            self.world.ev(ev='shutdown_raised', err=type(e).__name__)
         try:
             h.selector.close()
         except Exception:
